@@ -107,3 +107,116 @@ Definition week_const (w : weekly) : option bool :=
   if (length w =? 7)%nat && forallb is_full_range w then Some true
   else if forallb is_zero_range w then Some false
   else None.
+
+(** * Persistence: the ConfigModified callback and a restart (round 6)
+
+    Both writing handlers end with [d.conf.ConfigModified()].  In [home] that
+    callback writes the configuration file: it reads the filter's
+    configuration back at that very moment ([DNSFilter.WriteDiskConfig] copies
+    [*d.conf] under [confMu]; [filtering.Config.BlockedServices] is the stored
+    value) and encodes it.  A restart builds a new filter ([filtering.New]) from
+    the decoded file; [New] refuses a configuration whose blocked-services ids
+    are not all in the service table ([BlockedServices.Validate]).
+
+    The state is the stored value plus what is on disk.  How a value is written
+    ([save]) and read ([load]) is left open here (Model/BlockedSvcPersist.v
+    takes the YAML document of Model/ScheduleZone.v, which cannot be imported
+    here).  What matters is the ORDER inside a handler, mirrored as the code
+    has it now:
+
+      handleBlockedServicesUpdate: decode, validate, [d.conf.BlockedServices =
+        bsvc] under the lock, THEN [ConfigModified];
+      handleBlockedServicesSet:    decode, [d.conf.BlockedServices.IDs = list]
+        under the lock, THEN [ConfigModified];
+      a request answered 400 / 422 returns before either; GET does neither. *)
+Section Life.
+  Variable D : Type.
+  Variable save : bsvc -> D.
+  Variable load : D -> option bsvc.
+
+  Record life := { lf_mem : bsvc; lf_disk : D }.
+
+  (** [d.conf.BlockedServices = bsvc] (resp. [.IDs = list]). *)
+  Definition store (m : bsvc) (l : life) : life := {| lf_mem := m; lf_disk := lf_disk l |}.
+
+  (** [d.conf.ConfigModified()]: what the callback can read is what is stored
+      at the moment of the call. *)
+  Definition config_modified (l : life) : life :=
+    {| lf_mem := lf_mem l; lf_disk := save (lf_mem l) |}.
+
+  Inductive order := StoreThenNotify | NotifyThenStore.
+
+  Definition op_is_update (o : op) : bool :=
+    match o with OUpdate _ _ => true | _ => false end.
+
+  (** The handler reaches its [ConfigModified] call. *)
+  Definition calls_modified (o : op) (st : Z) : bool :=
+    (st =? st_ok) && match o with OUpdate _ _ | OSet _ => true | _ => false end.
+
+  Definition lstep_ord (ord : op -> order) (known : list bytes) (o : op) (l : life) : Z * life :=
+    let (st, m) := step known o (lf_mem l) in
+    (st, if calls_modified o st then
+           match ord o with
+           | StoreThenNotify => config_modified (store m l)
+           | NotifyThenStore => store m (config_modified l)
+           end
+         else store m l).
+
+  (** The order in both handlers of /repo as it stands. *)
+  Definition code_order (o : op) : order := StoreThenNotify.
+
+  (** The order of seeded change C18-L: the update handler calls the callback
+      in front of the store. *)
+  Definition callback_first_order (o : op) : order :=
+    if op_is_update o then NotifyThenStore else StoreThenNotify.
+
+  Definition lstep := lstep_ord code_order.
+
+  (** Restart: [None] = the new process does not come up (the file is not
+      read, or [filtering.New] refuses the ids). *)
+  Definition restart (known : list bytes) (l : life) : option life :=
+    match load (lf_disk l) with
+    | Some m => if ids_known known (bs_ids m) then Some {| lf_mem := m; lf_disk := lf_disk l |}
+                else None
+    | None => None
+    end.
+
+  Inductive lop := LReq (o : op) | LRestart.
+
+  Definition lop_step (ord : op -> order) (known : list bytes) (o : lop) (l : life) : option life :=
+    match o with
+    | LReq o => Some (snd (lstep_ord ord known o l))
+    | LRestart => restart known l
+    end.
+
+  Fixpoint lrun_ord (ord : op -> order) (known : list bytes) (l : life) (ops : list lop) : option life :=
+    match ops with
+    | [] => Some l
+    | o :: ops => match lop_step ord known o l with
+                  | Some l' => lrun_ord ord known l' ops
+                  | None => None
+                  end
+    end.
+
+  Definition lrun := lrun_ord code_order.
+
+  (** The requests of a history, restarts left out. *)
+  Fixpoint reqs_of (ops : list lop) : list op :=
+    match ops with
+    | [] => []
+    | LReq o :: ops => o :: reqs_of ops
+    | LRestart :: ops => reqs_of ops
+    end.
+End Life.
+
+Arguments Build_life {D} _ _.
+Arguments lf_mem {D} _.
+Arguments lf_disk {D} _.
+Arguments store {D} _ _.
+Arguments config_modified {D} _ _.
+Arguments lstep_ord {D} _ _ _ _ _.
+Arguments lstep {D} _ _ _ _.
+Arguments restart {D} _ _ _.
+Arguments lop_step {D} _ _ _ _ _ _.
+Arguments lrun_ord {D} _ _ _ _ _ _.
+Arguments lrun {D} _ _ _ _ _.
